@@ -45,7 +45,11 @@ class fixed_scalar_array(base_array):
 
     def __setitem__(self, idx, value):
         if isinstance(idx, slice):
-            self.__setslice__(idx.start, idx.stop, value)
+            if idx.step in (None, 1):
+                self.__setslice__(idx.start, idx.stop, value)
+            else:
+                # an extended slice never changes the length; list enforces equal sizes
+                self._values[idx] = list(map(self._TYPE._check, value))
         else:
             value = self._TYPE._check(value)
             self._values[idx] = value
@@ -97,7 +101,11 @@ class bound_scalar_array(base_array):
 
     def __setitem__(self, idx, value):
         if isinstance(idx, slice):
-            self.__setslice__(idx.start, idx.stop, value)
+            if idx.step in (None, 1):
+                self.__setslice__(idx.start, idx.stop, value)
+            else:
+                # an extended slice never changes the length; list enforces equal sizes
+                self._values[idx] = list(map(self._TYPE._check, value))
         else:
             value = self._TYPE._check(value)
             self._values[idx] = value
@@ -157,13 +165,13 @@ class bound_composite_array(base_array):
             raise ProphyError("exceeded array limit")
 
         new_element = self._TYPE()
-        self._values.append(new_element)
         for name, value in attributes.items():
             attr = getattr(new_element, name)
             if isinstance(attr, base_array):
                 attr[:] = value
             else:
                 setattr(new_element, name, value)
+        self._values.append(new_element)
         return new_element
 
     def extend(self, elem_seq):
